@@ -158,3 +158,22 @@ Proof.
   - assumption.
   - apply within_W_timely; [assumption|]. intros x o Hx. inversion Hx.
 Qed.
+
+(** A boolean checker for [timely] (used by the non-vacuity examples and the driver). *)
+Fixpoint timely_b (seen : list N) (arr : list op) : bool :=
+  match arr with
+  | [] => true
+  | o :: arr' =>
+      (1 <=? ts_tick (op_ts o)) &&
+      forallb (fun x => ts_tick x <? ts_tick (op_ts o) + W) seen &&
+      timely_b (op_ts o :: seen) arr'
+  end.
+
+Lemma timely_b_sound arr : forall seen, timely_b seen arr = true -> timely seen arr.
+Proof.
+  induction arr as [|o arr IH]; intros seen H; [exact I|].
+  cbn [timely_b] in H. apply andb_true_iff in H as [H H3]. apply andb_true_iff in H as [H1 H2].
+  cbn [timely]. split; [lia|]. split; [|apply IH; assumption].
+  intros x Hx. rewrite forallb_forall in H2. apply elem_of_list_In in Hx.
+  specialize (H2 x Hx). lia.
+Qed.
